@@ -9,6 +9,9 @@ Go strings are `Bytes` (one `Char` per byte). `float64` qualities are naturals i
 decimal with at most six fractional digits on every input the harness generates, so `<`/`==` on the
 doubles is `<`/`=` on the millionths. `strconv.ParseFloat` itself is a parameter `pf` (evaluated by the
 harness, shipped as a table): `pf raw = some m` iff the fallback accepts `raw` with `0 ≤ q ≤ 1`.
+
+Constants that mirror literals of the Go source are named defs (`@[reducible]`), tied to the regenerated
+`Gen/Consts.lean` by `Tie/Consts*.lean` (added by the owner of extract/; behaviour unchanged).
 -/
 namespace Rivaas.Accept
 
@@ -243,9 +246,12 @@ def answer (pf : PF) (c : Call) : Bytes :=
     else acceptsWith (parseAccept pf c.header) c.offers
   | _ => acceptHeaderMatch (if c.header.isEmpty then [] else parseAccept pf c.header) c.offers
 
+/-- `headerArena.specs [16]acceptSpec` -/
+@[reducible] def arenaSpecs : Nat := 16
+
 /-- `append` into `arena.specs[:0]`: the first 16 results land in the arena cells -/
 def writeArena (arena specs : List ASpec) : List ASpec :=
-  specs.take 16 ++ arena.drop (min 16 specs.length)
+  specs.take arenaSpecs ++ arena.drop (min arenaSpecs specs.length)
 
 /-- per-request state: `cachedAcceptHeader`, `cachedAcceptSpecs` (own backing array after the K19a fix;
     `none` = nil), and the contents of `cachedArena.specs` -/
@@ -255,7 +261,7 @@ structure Ctx where
   arena : List ASpec
   deriving Repr
 
-def Ctx.fresh : Ctx := { cachedHeader := [], cachedSpecs := none, arena := List.replicate 16 { value := [], q := 0 } }
+def Ctx.fresh : Ctx := { cachedHeader := [], cachedSpecs := none, arena := List.replicate arenaSpecs { value := [], q := 0 } }
 
 def step (pf : PF) (ctx : Ctx) (c : Call) : Ctx × Bytes :=
   match c.kind with
@@ -294,7 +300,7 @@ structure CtxAsIs where
   arena : List ASpec
   deriving Repr
 
-def CtxAsIs.fresh : CtxAsIs := { cachedHeader := [], cachedSpecs := none, arena := List.replicate 16 { value := [], q := 0 } }
+def CtxAsIs.fresh : CtxAsIs := { cachedHeader := [], cachedSpecs := none, arena := List.replicate arenaSpecs { value := [], q := 0 } }
 
 def readCached (arena : List ASpec) : CachedAsIs → List ASpec
   | .view n => arena.take n
@@ -373,7 +379,7 @@ def stepAsIs (pf : PF) (ctx : CtxAsIs) (c : Call) : CtxAsIs × Bytes :=
       | none =>
         let specs := parseAccept pf c.header
         ({ cachedHeader := c.header,
-           cachedSpecs := some (if specs.length ≤ 16 then .view specs.length else .heap specs),
+           cachedSpecs := some (if specs.length ≤ arenaSpecs then .view specs.length else .heap specs),
            arena := writeArena ctx.arena specs },
          acceptsWithAsIs specs c.offers)
   | _ =>
